@@ -3,7 +3,7 @@
    byte-string outputs); [case_ok] recomputes the outputs with the independent model and compares
    byte for byte.  Evaluated with vm_compute on the cases emitted by the Go harnesses. *)
 From DtlsV Require Import Lib.Bytes Crypto.C10Sha2 Crypto.C10Hmac Crypto.C10Prf Crypto.C10Layout
-  Crypto.C10Hkdf Crypto.C10Suites Crypto.C10Aes Crypto.C10Record.
+  Crypto.C10Hkdf Crypto.C10Suites Crypto.C10Aes Crypto.C10Record Crypto.C10Transcript.
 Open Scope N_scope.
 
 Definition c10_case := (N * N * list bytes * list N * list bytes)%type.
@@ -20,7 +20,16 @@ Definition nn (n : N) : nat := N.to_nat n.
 Definition keys_list (k : keys) : list bytes :=
   [k_client_mac k; k_server_mac k; k_client_key k; k_server_key k; k_client_iv k; k_server_iv k].
 
-(* function codes 1..19: TLS 1.2 derivation (C10Prf) *)
+(* live handshakes: the reassembled message bodies in wire order with (msg_type, message_seq) per body *)
+Fixpoint wire_msgs (bodies : list bytes) (ns : list N) : option (list wire_msg) :=
+  match bodies, ns with
+  | [], [] => Some []
+  | b :: bs, t :: s :: ns' => option_map (cons (t, s, b)) (wire_msgs bs ns')
+  | _, _ => None
+  end.
+
+(* function codes 1..19: TLS 1.2 derivation (C10Prf); 13..17 on the wire-order transcript of a live
+   handshake (C10Transcript) *)
 Definition expected_prf (fn : N) (H : hashfn) (ins : list bytes) (ns : list N) : option (list bytes) :=
   match fn, ins, ns with
   | 1, [secret; seed], [n] => Some [p_hash H secret seed (nn n)]
@@ -35,6 +44,10 @@ Definition expected_prf (fn : N) (H : hashfn) (ins : list bytes) (ns : list N) :
   | 10, [cr; sr; pub], [curve] => Some [value_key_message cr sr curve pub]
   | 11, [key; text], [] => Some [hmac H key text]
   | 12, [text], [] => Some [h_fn H text]
+  | 13, ms :: bodies, _ => option_map (fun w => [finished_client H ms w]) (wire_msgs bodies ns)
+  | 14, ms :: bodies, _ => option_map (fun w => [finished_server H ms w]) (wire_msgs bodies ns)
+  | 15, bodies, _ => option_map (fun w => [certificate_verify_input12 w]) (wire_msgs bodies ns)
+  | 17, pms :: bodies, _ => option_map (fun w => [extended_master_secret_wire H pms w]) (wire_msgs bodies ns)
   | _, _, _ => None
   end.
 
